@@ -599,7 +599,11 @@ class AsyncClient(base_client.BaseClient):
         self.callbacks = {}
         self._binary_packet = None
         self.sid = None
-        if will_reconnect and not self._reconnect_task:
+        if will_reconnect and (
+                not self._reconnect_task or
+                self not in base_client.reconnecting_clients):
+            # (a task left behind by an effort that gave up or was aborted
+            # does not stand in the way of a new one)
             self._reconnect_task = self.start_background_task(
                 self._handle_reconnect)
 
